@@ -309,25 +309,208 @@ Proof.
   apply in_or_app. left. simpl. auto.
 Qed.
 
+(** ---- escape with white-space references ---- *)
+Lemma replace1_flat_map k rep (g : N -> str) s :
+  replace1 k rep (flat_map g s) = flat_map (fun c => replace1 k rep (g c)) s.
+Proof. induction s as [|c s IH]; [reflexivity|]. cbn [flat_map]. rewrite replace1_app, IH. reflexivity. Qed.
+
+Lemma rep_if_flat_map b k rep (g : N -> str) s :
+  rep_if b k rep (flat_map g s) = flat_map (fun c => rep_if b k rep (g c)) s.
+Proof. destruct b; cbn [rep_if]; [apply replace1_flat_map|reflexivity]. Qed.
+
+Lemma replace1_one k rep c : (c =? k) = false -> replace1 k rep [c] = [c].
+Proof. intros H. cbn [replace1]. rewrite H. reflexivity. Qed.
+
+Lemma esc_g_one q t l r c :
+  rep_if r c_cr e_cr (rep_if l c_lf e_lf (rep_if t c_tab e_tab (rep_if q c_quot e_quot (esc_char c))))
+  = esc_char_g q t l r c.
+Proof.
+  unfold esc_char_g.
+  destruct (c =? c_amp) eqn:Ea. { apply N.eqb_eq in Ea; subst c. destruct q, t, l, r; reflexivity. }
+  destruct (c =? c_lt) eqn:Elt. { apply N.eqb_eq in Elt; subst c. destruct q, t, l, r; reflexivity. }
+  destruct (c =? c_gt) eqn:Egt. { apply N.eqb_eq in Egt; subst c. destruct q, t, l, r; reflexivity. }
+  destruct (c =? c_quot) eqn:Eq. { apply N.eqb_eq in Eq; subst c. destruct q, t, l, r; reflexivity. }
+  destruct (c =? c_tab) eqn:Et. { apply N.eqb_eq in Et; subst c. destruct q, t, l, r; reflexivity. }
+  destruct (c =? c_lf) eqn:Elf. { apply N.eqb_eq in Elf; subst c. destruct q, t, l, r; reflexivity. }
+  destruct (c =? c_cr) eqn:Ecr. { apply N.eqb_eq in Ecr; subst c. destruct q, t, l, r; reflexivity. }
+  cbn [andb]. unfold esc_char. rewrite Ea, Elt, Egt.
+  destruct q, t, l, r; cbn [rep_if]; rewrite ?replace1_one; auto.
+Qed.
+
+Lemma sax_escape_g_flat q t l r s : sax_escape_g q t l r s = flat_map (esc_char_g q t l r) s.
+Proof.
+  unfold sax_escape_g. rewrite sax_escape_flat, !rep_if_flat_map.
+  apply flat_map_ext. intros c. apply esc_g_one.
+Qed.
+
+Lemma fold_e_tab cx rb cr acc :
+  fold_left (step cx) e_tab (Run (MNorm rb cr) acc) = Run (MNorm 0 false) (c_tab :: acc).
+Proof. destruct cx; reflexivity. Qed.
+Lemma fold_e_lf cx rb cr acc :
+  fold_left (step cx) e_lf (Run (MNorm rb cr) acc) = Run (MNorm 0 false) (c_lf :: acc).
+Proof. destruct cx; reflexivity. Qed.
+Lemma fold_e_cr cx rb cr acc :
+  fold_left (step cx) e_cr (Run (MNorm rb cr) acc) = Run (MNorm 0 false) (c_cr :: acc).
+Proof. destruct cx; reflexivity. Qed.
+
+(** with the dictionary the context needs, every character comes back as itself *)
+Lemma fold_exact cx q t l r : exact_ok cx q t l r = true ->
+  forall s rb acc, xml_str s = true ->
+  exists rb', fold_left (step cx) (flat_map (esc_char_g q t l r) s) (Run (MNorm rb false) acc)
+              = Run (MNorm rb' false) (rev s ++ acc).
+Proof.
+  intros Hok. induction s as [|c s IH]; intros rb acc Hx.
+  - exists rb. reflexivity.
+  - cbn [xml_str forallb] in Hx. apply andb_true_iff in Hx as [Hc Hs]. fold (xml_str s) in Hs.
+    cbn [flat_map]. rewrite fold_left_app.
+    assert (Hone : exists rb1, fold_left (step cx) (esc_char_g q t l r c) (Run (MNorm rb false) acc)
+                               = Run (MNorm rb1 false) (c :: acc)).
+    { destruct (c =? c_amp) eqn:Ea.
+      { apply N.eqb_eq in Ea; subst c. change (esc_char_g q t l r c_amp) with e_amp.
+        rewrite fold_e_amp. eexists; reflexivity. }
+      destruct (c =? c_lt) eqn:Elt.
+      { apply N.eqb_eq in Elt; subst c. change (esc_char_g q t l r c_lt) with e_lt.
+        rewrite fold_e_lt. eexists; reflexivity. }
+      destruct (c =? c_gt) eqn:Egt.
+      { apply N.eqb_eq in Egt; subst c. change (esc_char_g q t l r c_gt) with e_gt.
+        rewrite fold_e_gt. eexists; reflexivity. }
+      destruct (c =? c_quot) eqn:Eq.
+      { apply N.eqb_eq in Eq; subst c. change (esc_char_g q t l r c_quot) with (if q then e_quot else [c_quot]).
+        destruct q; [rewrite fold_e_quot; eexists; reflexivity|].
+        destruct cx; [discriminate Hok|]. eexists; reflexivity. }
+      destruct (c =? c_tab) eqn:Et.
+      { apply N.eqb_eq in Et; subst c. change (esc_char_g q t l r c_tab) with (if t then e_tab else [c_tab]).
+        destruct t; [rewrite fold_e_tab; eexists; reflexivity|].
+        destruct cx; [exfalso; destruct q, l, r; discriminate Hok|]. eexists; reflexivity. }
+      destruct (c =? c_lf) eqn:Elf.
+      { apply N.eqb_eq in Elf; subst c. change (esc_char_g q t l r c_lf) with (if l then e_lf else [c_lf]).
+        destruct l; [rewrite fold_e_lf; eexists; reflexivity|].
+        destruct cx; [exfalso; destruct q, t, r; discriminate Hok|]. eexists; reflexivity. }
+      destruct (c =? c_cr) eqn:Ecr.
+      { apply N.eqb_eq in Ecr; subst c. change (esc_char_g q t l r c_cr) with (if r then e_cr else [c_cr]).
+        destruct r; [rewrite fold_e_cr; eexists; reflexivity|].
+        exfalso. destruct cx; [destruct q, t, l; discriminate Hok|discriminate Hok]. }
+      assert (Ef : esc_char_g q t l r c = [c]).
+      { unfold esc_char_g, esc_char. rewrite Eq, Et, Elf, Ecr, Ea, Elt, Egt. reflexivity. }
+      rewrite Ef. cbn [fold_left step]. rewrite Hc, Ea, Elt, Ecr, Elf. cbn [negb andb].
+      destruct cx.
+      - rewrite Eq. unfold attr_ws. rewrite Et, Elf. cbn [orb]. eexists; reflexivity.
+      - rewrite Egt. cbn [andb]. eexists; reflexivity. }
+    destruct Hone as [rb1 E1]. rewrite E1.
+    destruct (IH rb1 (c :: acc) Hs) as [rb' E]. exists rb'. rewrite E, rev_cons_app. reflexivity.
+Qed.
+
+Theorem slot_exact cx q t l r s : exact_ok cx q t l r = true -> xml_str s = true ->
+  lex_slot cx (sax_escape_g q t l r s) = Got s.
+Proof.
+  intros Hok Hx. rewrite sax_escape_g_flat.
+  destruct (fold_exact cx q t l r Hok s 0%nat [] Hx) as [rb E].
+  unfold lex_slot. destruct cx.
+  - rewrite (lex_attr_of_fold _ _ _ _ E), app_nil_r, rev_involutive. reflexivity.
+  - rewrite (lex_text_of_fold _ _ _ _ E), app_nil_r, rev_involutive. reflexivity.
+Qed.
+
+(** the attribute theorem without any guard *)
+Theorem attr_safe_w s : xml_str s = true ->
+  lex_attr (c_quot :: sax_escape_qw s ++ [c_quot]) = OneValue s.
+Proof.
+  intros Hx. pose proof (slot_exact AttrDq true true true true s eq_refl Hx) as H.
+  unfold lex_slot, sax_escape_qw in *.
+  destruct (lex_attr (c_quot :: sax_escape_g true true true true s ++ [c_quot])); inversion H; reflexivity.
+Qed.
+
+(** element text: escaping the carriage return as well gives back every string *)
+Theorem text_safe_r s q t l : xml_str s = true -> lex_text (sax_escape_g q t l true s) = OneText s.
+Proof.
+  intros Hx. pose proof (slot_exact Text q t l true s eq_refl Hx) as H.
+  unfold lex_slot in H. destruct (lex_text (sax_escape_g q t l true s)); inversion H; reflexivity.
+Qed.
+
+(** what the shorter dictionaries do: the older functions are instances *)
+Lemma sax_escape_g_none s : sax_escape_g false false false false s = sax_escape s.
+Proof. reflexivity. Qed.
+Lemma sax_escape_g_q s : sax_escape_g true false false false s = sax_escape_q s.
+Proof. reflexivity. Qed.
+
 (** ---- the decision table ---- *)
 Theorem sink_ok_sound cx e : sink_ok cx e = true ->
-  forall s, xml_str s = true -> (e = NotText -> plain s = true) ->
-  lex_slot cx (apply_esc e s) = Got (norm cx s).
+  forall s, xml_str s = true -> (e = NotText -> plain s = true /\ no_ws_ctl s = true) ->
+  lex_slot cx (apply_esc e s) = Got s.
 Proof.
-  intros Hok s Hx Hp. destruct e; cbn [apply_esc].
-  - destruct cx; discriminate Hok.
-  - destruct cx; [discriminate Hok|]. unfold lex_slot. rewrite text_safe_norm; auto.
-  - destruct cx; unfold lex_slot.
-    + rewrite attr_safe_norm; auto.
-    + rewrite text_safe_q_norm; auto.
-  - apply plain_safe_norm; auto.
+  intros Hok s Hx Hp. destruct e as [|q t l r|]; cbn [apply_esc].
+  - discriminate Hok.
+  - apply slot_exact; auto.
+  - destruct (Hp eq_refl) as [Hpl Hw]. rewrite plain_safe_norm; auto. f_equal.
+    destruct cx; [apply norm_attr_id; auto|].
+    apply norm_text_id. unfold no_ws_ctl in Hw. unfold no_cr. rewrite forallb_forall in *.
+    intros c Hc. specialize (Hw c Hc). apply negb_true_iff in Hw. apply orb_false_iff in Hw as [_ Hw].
+    rewrite Hw. reflexivity.
 Qed.
 
 Theorem sink_ok_complete cx e : sink_ok cx e = false ->
-  xml_str (witness cx e) = true /\ no_ws_ctl (witness cx e) = true /\
-  lex_slot cx (apply_esc e (witness cx e)) <> Got (norm cx (witness cx e)).
+  xml_str (witness cx e) = true /\
+  lex_slot cx (apply_esc e (witness cx e)) <> Got (witness cx e).
 Proof.
-  destruct cx, e; intros H; try discriminate H; repeat split; try reflexivity; vm_compute; discriminate.
+  destruct cx, e as [|q t l r|]; try destruct q, t, l, r; intros H; try discriminate H;
+    (split; [reflexivity|vm_compute; discriminate]).
+Qed.
+
+(** markup safety alone (strings without TAB, LF, CR): the quote in attributes is what matters *)
+Theorem markup_ok_sound cx e : markup_ok cx e = true ->
+  forall s, xml_str s = true -> (e = NotText -> plain s = true) ->
+  lex_slot cx (apply_esc e s) <> Broken.
+Proof.
+  intros Hok s Hx Hp. destruct e as [|q t l r|]; cbn [apply_esc].
+  - discriminate Hok.
+  - (* unescaped white space is normalised, never an error: go through the general fold *)
+    assert (G : forall s rb cr acc, xml_str s = true -> (cx = AttrDq -> q = true) ->
+      exists rb' cr' v, fold_left (step cx) (flat_map (esc_char_g q t l r) s) (Run (MNorm rb cr) acc)
+                        = Run (MNorm rb' cr') v).
+    { clear s Hx Hp. induction s as [|c s IH]; intros rb cr acc Hx Hq.
+      - exists rb, cr, acc. reflexivity.
+      - cbn [xml_str forallb] in Hx. apply andb_true_iff in Hx as [Hc Hs]. fold (xml_str s) in Hs.
+        cbn [flat_map]. rewrite fold_left_app.
+        assert (Hone : exists rb1 cr1 v1, fold_left (step cx) (esc_char_g q t l r c) (Run (MNorm rb cr) acc)
+                                          = Run (MNorm rb1 cr1) v1).
+        { destruct (c =? c_amp) eqn:Ea.
+          { apply N.eqb_eq in Ea; subst c. change (esc_char_g q t l r c_amp) with e_amp.
+            rewrite fold_e_amp. do 3 eexists; reflexivity. }
+          destruct (c =? c_lt) eqn:Elt.
+          { apply N.eqb_eq in Elt; subst c. change (esc_char_g q t l r c_lt) with e_lt.
+            rewrite fold_e_lt. do 3 eexists; reflexivity. }
+          destruct (c =? c_gt) eqn:Egt.
+          { apply N.eqb_eq in Egt; subst c. change (esc_char_g q t l r c_gt) with e_gt.
+            rewrite fold_e_gt. do 3 eexists; reflexivity. }
+          destruct (c =? c_quot) eqn:Eq.
+          { apply N.eqb_eq in Eq; subst c. change (esc_char_g q t l r c_quot) with (if q then e_quot else [c_quot]).
+            destruct q; [rewrite fold_e_quot; do 3 eexists; reflexivity|].
+            destruct cx; [discriminate (Hq eq_refl)|]. destruct cr; do 3 eexists; reflexivity. }
+          destruct (c =? c_tab) eqn:Et.
+          { apply N.eqb_eq in Et; subst c. change (esc_char_g q t l r c_tab) with (if t then e_tab else [c_tab]).
+            destruct t; [rewrite fold_e_tab; do 3 eexists; reflexivity|].
+            destruct cx, cr; do 3 eexists; reflexivity. }
+          destruct (c =? c_lf) eqn:Elf.
+          { apply N.eqb_eq in Elf; subst c. change (esc_char_g q t l r c_lf) with (if l then e_lf else [c_lf]).
+            destruct l; [rewrite fold_e_lf; do 3 eexists; reflexivity|].
+            destruct cx, cr; do 3 eexists; reflexivity. }
+          destruct (c =? c_cr) eqn:Ecr.
+          { apply N.eqb_eq in Ecr; subst c. change (esc_char_g q t l r c_cr) with (if r then e_cr else [c_cr]).
+            destruct r; [rewrite fold_e_cr; do 3 eexists; reflexivity|].
+            destruct cx, cr; do 3 eexists; reflexivity. }
+          assert (Ef : esc_char_g q t l r c = [c]).
+          { unfold esc_char_g, esc_char. rewrite Eq, Et, Elf, Ecr, Ea, Elt, Egt. reflexivity. }
+          rewrite Ef. cbn [fold_left step]. rewrite Hc, Ea, Elt, Ecr, Elf. cbn [negb andb].
+          destruct cx.
+          - rewrite Eq. do 3 eexists; reflexivity.
+          - rewrite Egt. cbn [andb]. do 3 eexists; reflexivity. }
+        destruct Hone as [rb1 [cr1 [v1 E1]]]. rewrite E1. apply IH; auto. }
+    rewrite sax_escape_g_flat.
+    assert (Hq : cx = AttrDq -> q = true) by (intros ->; exact Hok).
+    destruct (G s 0%nat false [] Hx Hq) as [rb [cr [v E]]].
+    unfold lex_slot. destruct cx.
+    + rewrite (lex_attr_of_fold _ _ _ _ E). discriminate.
+    + rewrite (lex_text_of_fold _ _ _ _ E). discriminate.
+  - rewrite plain_safe_norm; auto. discriminate.
 Qed.
 
 Lemma slot_result_eqb_eq a b : slot_result_eqb a b = true <-> a = b.
